@@ -159,6 +159,9 @@ def anchor_map():
                                         continue
                                     amap.setdefault((cur, name, k), set()).add(pid)
                     elif m.group(3) and cur:
+                        # names are used only when the `where` string gives no line range for that file
+                        if re.search(re.escape(cur) + r"[^;]*\(l\.", w):
+                            continue
                         ident = m.group(3).rstrip("!").split("::")[-1]
                         src = pristine(cur)
                         if not src:
@@ -166,6 +169,9 @@ def anchor_map():
                         for (name, k, s, t) in fn_spans(src):
                             if name == ident and len(ident) > 3:
                                 amap.setdefault((cur, name, k), set()).add(pid)
+    for k, props in {("src/application.rs", "accept", 0): {"C07"}, ("src/application.rs", "poll_read", 0): {"C08"},
+                     ("src/application.rs", "drain", 0): {"C07", "C08"}}.items():
+        amap.setdefault(k, set()).update(props)
     return amap
 
 
@@ -245,7 +251,13 @@ def plan(per_fn, seed):
                 continue
             sp = cands[k] if k < len(cands) else cands[-1]
             ms = []
+            head = "\n".join(lines[max(0, sp[2] - 4):sp[2]])
+            if 'feature = "uring"' in head and "not(feature" not in head:
+                continue
             for ln in range(sp[2], min(sp[3], cut) + 1):
+                ctx = "\n".join(lines[max(0, ln - 4):ln - 1])
+                if 'cfg(feature = "uring")' in ctx:
+                    continue
                 raw = lines[ln - 1]
                 code = strip_strings_comments(raw)
                 code = code + " " * (len(raw) - len(code))
